@@ -3,6 +3,7 @@ mod battery;
 mod c03;
 mod c04;
 mod c08;
+mod c09;
 mod c10;
 mod c11;
 mod c15;
@@ -67,6 +68,7 @@ fn main() {
         "c03" => c03::run(&a),
         "c04" => c04::run(&a),
         "c08" => c08::run(&a),
+        "c09" => c09::run(&a),
         "c10" => c10::run(&a),
         "c11" => c11::run(&a),
         "c15" => c15::run(&a),
